@@ -171,9 +171,21 @@ def receiver_run(role, W, PKT, ops):
     sent = 0
     delivered_expected = b''
     first_excess = None
+    npk = 0
     if role == 'server':
         env = {'session_factory': lambda: P.RecSession('srv')}
         w = H.SrvWorld(env=env, sopts=dict(window=W, max_pktsize=PKT))
+    elif role == 'server-tun':
+        # a layer-3 tunnel channel (tun@openssh.com, point-to-point): every packet carries a 4-byte address family
+        # word that is taken off before the application sees the data -- and that counts against the window
+        env = {}
+
+        class TunSrv(P.RecServer):
+            def tun_requested(self, unit):
+                sess_ = P.RecSession('srv')
+                self.env.setdefault('server_sessions', []).append(sess_)
+                return self.conn.create_tuntap_channel(window=W, max_pktsize=PKT), sess_
+        w = H.SrvWorld(env=env, server_factory=TunSrv)
     else:
         w = H.CliWorld()
     rp = w.rp
@@ -189,6 +201,20 @@ def receiver_run(role, W, PKT, ops):
         if role == 'server':
             w.kex().auth()
             remote, rwin, rpkt = w.open_session(request='shell')
+            sess = env['server_sessions'][0]
+            chan = sess.chan
+            conn = w.conn
+        elif role == 'server-tun':
+            w.kex().auth()
+            n0 = len(rp.inbox)
+            rp.send(R.byte(R.MSG_CHANNEL_OPEN) + R.string('tun@openssh.com') + R.u32(0) + R.u32(2 ** 21) + R.u32(32768) + R.u32(1) + R.u32(0x7fffffff))
+            w.flush()
+            conf = [p for t, p in rp.inbox[n0:] if t == R.MSG_CHANNEL_OPEN_CONFIRMATION]
+            if not conf:
+                raise R.RefError('tunnel channel not confirmed: %r' % (rp.types()[n0:],))
+            r_ = R.Reader(conf[0], 1)
+            r_.u32()
+            remote, rwin, rpkt = r_.u32(), r_.u32(), r_.u32()
             sess = env['server_sessions'][0]
             chan = sess.chan
             conn = w.conn
@@ -209,10 +235,13 @@ def receiver_run(role, W, PKT, ops):
             if op[0] in ('send', 'sendx'):
                 n = op[1]
                 d = data_of(sent + n)[sent:]
-                if op[0] == 'send':
+                if op[0] == 'send' and role == 'server-tun':
+                    npk += 1
+                    rp.send(rp.channel_data(remote, b'\0\0\0\2' + d[4:]))
+                elif op[0] == 'send':
                     rp.send(rp.channel_data(remote, d))
                 else:
-                    if role == 'server':
+                    if role != 'client':
                         continue        # servers do not accept extended data
                     rp.send(R.byte(R.MSG_CHANNEL_EXTENDED_DATA) + R.u32(remote) + R.u32(1) + R.string(d))
                 if n > adv and first_excess is None:
@@ -250,7 +279,7 @@ def receiver_run(role, W, PKT, ops):
                     w.flush()
                     account()
                 got = sess.got(None) + (sess.got(1) if role == 'client' else b'')
-                if len(got) != sent:
+                if len(got) != sent - 4 * npk:
                     viol.append(('not-delivered', 'application got %d of %d bytes' % (len(got), sent)))
                 if adv <= 0 and sent > 0:
                     viol.append(('window-not-replenished', 'reader consumed everything but the '
@@ -297,6 +326,13 @@ def receiver_jobs(tier):
                     seqs.append(tuple(s))
             for i in range(0, len(seqs), 400):
                 jobs.append((role, W, PKT, seqs[i:i + 400]))
+    # tunnel channels: packets of at least 5 bytes (4-byte family word + payload)
+    for W, PKT in ((16, 32768), (100, 100)):
+        sizes = sorted({5, W // 2, W - 1, W, W + 1})
+        alpha = [('send', n) for n in sizes] + [('pause',), ('resume',)]
+        seqs = [tuple(s_) for d in range(1, min(depth, 4) + 1) for s_ in itertools.product(alpha, repeat=d) if s_[-1][0] != 'pause']
+        for i in range(0, len(seqs), 400):
+            jobs.append(('server-tun', W, PKT, seqs[i:i + 400]))
     return jobs
 
 
